@@ -6,7 +6,7 @@ func extraRules() []*Rule {
 	out = append(out, rulesLocks()...)
 	out = append(out, rulesTables()...)
 	out = append(out, rulesStorage()...)
-	out = append(out, ruleLifecycle(), ruleHeartbeat(), ruleRecordOffset(), ruleFollowerLookup(), ruleOffsetOwner(), ruleSendLabel(), ruleVerifyRound(), ruleContactRefresh(), ruleHandlerDemote(), rulePrevoteToken(), ruleApplyWait())
+	out = append(out, ruleLifecycle(), ruleHeartbeat(), ruleRecordOffset(), ruleFollowerLookup(), ruleOffsetOwner(), ruleSendLabel(), ruleVerifyRound(), ruleContactRefresh(), ruleHandlerDemote(), rulePrevoteToken(), ruleApplyWait(), ruleRestoreReconcile())
 	return out
 }
 
@@ -54,6 +54,8 @@ func extraSpecs() []*PropertySpec {
 		{ID: "C07", Rules: []string{"TERM-VOTE", "STATE-TRANSITIONS", "COUNT-VOTES", "AE-HANDLER"}, Decided: "leader completeness rests on one vote per term, a real-vote quorum and log matching"},
 		{ID: "C11", Rules: []string{"RECORD-OFFSET", "LOG-WSP"}, Decided: "entries that survive a compaction keep the position of their own record, so a later truncation cuts the file where the log says"},
 		{ID: "C15", Rules: []string{"APPLY-WAIT"}, Decided: "the apply loop never sleeps on its edge-triggered signal while committed entries are waiting (a lost wake-up would leave a follower of an idle cluster behind for ever)"},
+		{ID: "C14", Rules: []string{"RESTORE-RECONCILE"}, Decided: "a node started over a directory in which a received snapshot is visible but the log was not yet discarded brings the log in line with the snapshot, so that it accepts what follows the snapshot"},
+		{ID: "C15", Rules: []string{"RESTORE-RECONCILE"}, Decided: "the restarted node of C14's interrupted installation catches up (it would otherwise reject both the entries after the snapshot and the snapshot)"},
 		{ID: "C10", Rules: []string{"SEND-LABEL"}, Decided: "a snapshot request is labelled with the metadata of the very file whose bytes it carries, not with the node's boundary"},
 		{ID: "C11", Rules: []string{"SEND-LABEL"}, Decided: "a snapshot request is labelled with the metadata of the very file whose bytes it carries"},
 		{ID: "C11", Rules: []string{"COMPACT-KEEP"}, Decided: "Compact keeps the boundary entry as placeholder plus the suffix, DiscardEntries leaves exactly the placeholder, LastIndex/LastTerm/NextIndex read the last element"},
